@@ -11,6 +11,7 @@ B(k) == [k |-> k]
 Ref(n) == [k |-> "ref", n |-> n]
 ListOf(e) == [k |-> "list", e |-> e]
 SetOf(e) == [k |-> "set", e |-> e]
+SliceSetOf(e) == [k |-> "set", e |-> e, slice |-> TRUE]      \* set<e> (go.type = "slice"): the same type on the wire, a slice in Go
 MapOf(kt, vt) == [k |-> "map", kt |-> kt, vt |-> vt]
 
 I(n) == [k |-> "int", n |-> n]
@@ -42,6 +43,7 @@ Shapes ==
   \cup { Ref("Color"), Ref("Inner"), Ref("MyInt"), Ref("MyStr"), Ref("MyColor"), Ref("MyInner"), Ref("MyList"), Ref("MyLong2"), Ref("MyMap"), Ref("MySet") }
   \cup { ListOf(e) : e \in { B("i32"), B("string"), B("binary"), B("bool"), B("double"), Ref("Inner"), Ref("Color"), ListOf(B("i32")), Ref("MyStr"), MapOf(B("string"), B("i32")) } }
   \cup { SetOf(e) : e \in { B("i32"), B("string"), B("binary"), Ref("Color"), Ref("Inner"), ListOf(B("i32")), B("i64"), Ref("MyInt"), B("double") } }
+  \cup { SliceSetOf(e) : e \in { B("i32"), B("string"), Ref("Color"), Ref("MyColor") } }
   \cup { MapOf(kt, vt) : kt \in { B("string"), B("i32"), Ref("Color") }, vt \in { B("i32"), Ref("Inner"), ListOf(B("string")) } }
   \cup { MapOf(Ref("Inner"), B("i32")), MapOf(ListOf(B("i32")), B("string")), MapOf(B("binary"), B("bool")), MapOf(B("double"), B("i8")),
          MapOf(B("i64"), MapOf(B("string"), B("i8"))), MapOf(SetOf(B("i32")), ListOf(B("double"))), MapOf(Ref("MyStr"), Ref("MyInner")) }
@@ -65,6 +67,9 @@ Vals(S, t) ==
     [] r.k = "set" /\ Root(S, r.e).k = "double" ->      \* sets that differ in the sign of a zero only are equal
                        LET pz == Dbl(<<0,0,0,0>>) nz == Dbl(<<32768,0,0,0>>) one == Dbl(<<16368,0,0,0>>) IN
                        { SV(<<>>), SV(<<pz>>), SV(<<nz>>), SV(<<pz, one>>), SV(<<nz, one>>) }
+    \* enums are open: sets of the same size that differ in one member only, small, large or negative
+    [] r.k = "set" /\ Root(S, r.e).k = "ref" /\ Def(S, Root(S, r.e).n).kind = "enum" ->
+                       { SV(<<>>), SV(<<I(1)>>), SV(<<I(1), I(5)>>), SV(<<I(1), I(77)>>), SV(<<I(1), I(404)>>), SV(<<I(-3)>>), SV(<<I(-2)>>) }
     [] r.k = "set"  -> LET p == Pick2(Vals(S, r.e)) IN { SV(<<>>), SV(<<p[1]>>), SV(p) }
     [] r.k = "map"  -> LET pk == Pick2(Vals(S, r.kt)) pv == Pick2(Vals(S, r.vt)) IN
                        { MV(<<>>), MV(<< [k |-> pk[1], v |-> pv[1]] >>), MV(<< [k |-> pk[Len(pk)], v |-> pv[1]] >>),     \* the same value under another key
@@ -92,7 +97,8 @@ Specs == SetToSeq({ sp \in TypeSpecs : OKSpec(sp) })
 \* generator run names the same type the same way
 RECURSIVE TName(_)
 TName(t) == CASE t.k = "list" -> "L" \o TName(t.e)
-              [] t.k = "set" -> "S" \o TName(t.e)
+              [] t.k = "set" /\ "slice" \in DOMAIN t -> "Z" \o TName(t.e)
+              [] t.k = "set" /\ "slice" \notin DOMAIN t -> "S" \o TName(t.e)
               [] t.k = "map" -> "M" \o TName(t.kt) \o "x" \o TName(t.vt)
               [] t.k = "ref" -> t.n
               [] OTHER -> t.k
